@@ -233,6 +233,14 @@ structure SysfsCfg where
   take : Nat                -- `fields[:10]`
   unpack : List String      -- names on the left of `= map(int, fields[:10])`
   yieldNames : List String  -- the yielded tuple after `name`
+  /-- `name = os.path.basename(root)` (none) or `….replace(chr a, chr b)` (some (a, b)) -/
+  nameReplace : Option (Nat × Nat)
+
+/-- `s.replace(chr a, chr b)` for single characters, or nothing -/
+def mapName (nr : Option (Nat × Nat)) (n : Bytes) : Bytes :=
+  match nr with
+  | none => n
+  | some ab => n.map fun c => if c = ab.1 then ab.2 else c
 
 /-- `f.read()` of a text-mode file -/
 def textRead (univ : Bool) (content : Bytes) : Bytes := if univ then univNl content else content
@@ -251,7 +259,7 @@ def sysfsStat (sc : SysfsCfg) (univ : Bool) (content : Bytes) : Res (List Nat) :
 
 /-- the directories `read_sysfs` opens a `stat` file in, in walk order: (`basename(root)`, content) -/
 def sysfsEntries (sc : SysfsCfg) (blocks : List SysDir) : List (Bytes × Bytes) :=
-  (walkList blocks).filterMap fun e => (e.2.lookup sc.statName).map fun c => (e.1, c)
+  (walkList blocks).filterMap fun e => (e.2.lookup sc.statName).map fun c => (mapName sc.nameReplace e.1, c)
 
 def sysfsFold (cfg : DiskCfg) (sc : SysfsCfg) (storage : Bytes → Bool) (perdisk : Bool) :
     Dict → List (Bytes × Bytes) → Res Dict
